@@ -121,12 +121,13 @@ Proof.
   apply Nat.ltb_lt in W1, W2. apply Nat.leb_le in W3. apply Z.eqb_eq in W4. exists w. repeat split; assumption.
 Qed.
 
-Lemma sustain1 f : sustain fb f = 1.
-Proof. exact (f1_sustain fb FF f). Qed.
+Lemma sustain1 f : isact fb f = true -> is_complex fb f = true -> sustain fb f = 1.
+Proof. exact (f1_sustain_cx fb HF1 f). Qed.
 
-Lemma lappl_model f t : applies_to_trial fb f (t / 1 + 1) = lappl fb f t.
+Lemma lappl_model f t : isact fb f = true -> is_complex fb f = true ->
+  applies_to_trial fb f (t / 1 + 1) = lappl fb f t.
 Proof.
-  unfold lappl, applies_at. rewrite (sustain1 f). replace (S t - 1) with t by lia. reflexivity.
+  intros Ha Hc. unfold lappl, applies_at. rewrite (sustain1 f Ha Hc). replace (S t - 1) with t by lia. reflexivity.
 Qed.
 
 (** * The variables of one entry at one trial *)
@@ -212,9 +213,9 @@ Proof.
   induction k as [|k IH]; intros a Hak.
   - unfold trials_of. rewrite Nat.add_0_r, Nat.sub_diag. reflexivity.
   - cbn [seq deriv_complex_loop]. rewrite Nat.mod_1_r. cbn [Nat.eqb negb].
-    rewrite (lappl_model f a), trials_of_cons.
+    rewrite (lappl_model f a Ha Hcf), trials_of_cons.
     destruct (lappl fb f a) eqn:Eap; cbn [negb].
-    + pose proof (lappl_prev fb f fd w a Hfa Ew (sustain1 f) W2 Eap) as Hn.
+    + pose proof (lappl_prev fb f fd w a Hfa Ew (sustain1 f Ha Hcf) W2 Eap) as Hn.
       assert (Hands : cmapM (fun l0 => deriv_vars fb l0 a (zn (prev fb f a) * zn (win_stride w) + win_start_delta w * zn 1)%Z 1)
                             (map (fun e => map DIdx (entry_idx (win_deps w) e)) (lv_accepts lv))
                       = COk (map (fun e => Some (map zn (entry_cvars w a e))) (lv_accepts lv))).
@@ -276,8 +277,9 @@ Proof.
   exists fd, w, l, lv. split; [exact Efd|]. split; [exact Ew|]. split; [exact Elv|]. split; [exact Hf|].
   split; [exact Hc|]. split; [exact Hl|]. split; [reflexivity|]. split; [exact Hd|]. split; [exact He|].
   pose proof (loop_spec f fd w l lv Efd Ew Hf Hc Elv Hd He (T fb) 0 ltac:(lia)) as L.
-  rewrite prev_0 in L. cbn [Nat.add] in L. rewrite (f1_sustain fb FF f).
-  split; [exact L|]. unfold derivc_formulas, factor_at. rewrite Efd, Ew, (f1_sustain fb FF f), L. reflexivity.
+  assert (Hsu : sustain_of fb f = 1) by (apply (f1_sustain_cx fb HF1 f Hf); now rewrite (is_complex_at fb f fd Efd)).
+  rewrite prev_0 in L. cbn [Nat.add] in L. rewrite Hsu.
+  split; [exact L|]. unfold derivc_formulas, factor_at. rewrite Efd, Ew, Hsu, L. reflexivity.
 Qed.
 
 (** * The variables of the formulas are trial variables *)
@@ -331,7 +333,7 @@ Proof.
   replace (d <? grid_variables fb) with false in E.
   2:{ symmetry. apply Nat.ltb_ge. rewrite (f1_grid fb). lia. }
   unfold deriv_complex in E. change (factor_at fb f) with (nth_error (fl_design fb) f) in E. rewrite Efd, Ew in E.
-  rewrite (f1_sustain fb FF f) in E. cbn [Nat.eqb] in E. rewrite (f1_sustain fb FF f) in L. rewrite L in E. cbn [cbind] in E.
+  rewrite (f1_sustain_cx fb HF1 f Hf Hcx) in E. cbn [Nat.eqb] in E. rewrite (f1_sustain_cx fb HF1 f Hf Hcx) in L. rewrite L in E. cbn [cbind] in E.
   destruct (cnf_fn (cx_iffs w f l (lv_accepts lv)) fresh) as [cls fresh'] eqn:Ecnf. inversion E. subst ct. clear E.
   cbn [ct_fresh ct_clauses ct_requests]. unfold Pderivc. rewrite EF.
   apply (definesA_tseitin (cx_iffs w f l (lv_accepts lv)) fresh cls fresh'); [lia| |exact Ecnf].
